@@ -2620,6 +2620,10 @@ class RockRidge:
 
         if px_record_length == 44 or sf_record_length == 21 or has_es_record or er_id == EXT_ID_112:
             self.rr_version = '1.12'
+        elif continuation and self.rr_version == '1.12':
+            # The entries in the Directory Record already identified this as
+            # 1.12; the entries in the continuation area cannot downgrade that.
+            pass
         else:
             # Not 1.12, so either 1.09 or 1.10.
             if sf_record_length == 12:
